@@ -38,7 +38,11 @@ impl Prop for C10T {
         let m = simcore::spec::model(iface);
         let k = rng.range(1, 8);
         let max_units = rng.range(1, 3);
-        let pay = if rng.chance(1, 4) { Payloads::Special } else { Payloads::Plain };
+        let pay = match rng.below(8) {
+            0 | 1 => Payloads::SpecialNl,
+            2 | 3 => Payloads::Special,
+            _ => Payloads::Plain,
+        };
         let mut msgs = valid_history(&mut rng, &m, k, max_units, pay, true);
         // some faulty messages: they produce no response (or, on queue interfaces, feed SYST:ERR?)
         for msg in msgs.iter_mut() {
@@ -77,7 +81,8 @@ impl Prop for C10T {
         }
         let v = |class: &str, detail: String| Verdict::Violation { class: class.into(), detail };
         // per message responses and handlers: run, one message at a time (differential reference)
-        let r = exec(&run_exec(sc, bytes.clone(), bounds.clone(), Sink::Sim(None), vec![]), st);
+        // (into the writer process uses: heapless::Vec<u8,N>, cleared after every call)
+        let r = exec(&run_exec(sc, bytes.clone(), bounds.clone(), Sink::HeaplessN, vec![]), st);
         if r.unsupported {
             return Verdict::Skip("skip:unsupported-configuration");
         }
@@ -91,10 +96,20 @@ impl Prop for C10T {
         for e in &r.events {
             match e {
                 Ev::Call(k) => cur = *k as usize,
-                Ev::WWrite(d) => resp[cur.min(nmsg - 1)].extend_from_slice(d),
                 Ev::Enter { h, .. } => hand[cur.min(nmsg - 1)].push(*h),
                 _ => {}
             }
+        }
+        if r.sink_marks.len() != nmsg {
+            return Verdict::Skip("skip:reference-run-incomplete");
+        }
+        let mut last = 0;
+        for (i, &mk) in r.sink_marks.iter().enumerate() {
+            resp[i] = r.sink_bytes[last..mk].to_vec();
+            last = mk;
+        }
+        if r.events.iter().any(|e| matches!(e, Ev::Err(microscpi::Error::TooMuchData) | Ev::Err(microscpi::Error::SystemError))) {
+            return Verdict::Skip("skip:message-or-response-larger-than-N");
         }
         // every message and every message's responses must fit (DESIGN 7, O1)
         for i in 0..nmsg {
@@ -104,6 +119,9 @@ impl Prop for C10T {
         }
         if r.remainders.iter().zip(bounds.windows(2)).any(|(rm, w)| *rm < w[1] - w[0]) {
             return Verdict::Skip("skip:message-left-open");
+        }
+        if bytes[..bytes.len() - 1].iter().zip(bounds.iter().skip(1)).count() > 0 && sc.msgs.iter().any(|m| { let b = m.render(); b[..b.len() - 1].contains(&b'\n') }) {
+            st.bump("reach:newline_inside_payload");
         }
         let mut cum = vec![0usize; nmsg + 1];
         for i in 0..nmsg {
@@ -142,7 +160,11 @@ impl Prop for C10T {
                     Ev::TRead { got, ok, .. } => {
                         // responses of all messages whose terminator has been delivered
                         let done = bounds.iter().skip(1).filter(|&&b| b <= delivered).count();
-                        if written.len() != cum[done] || written[..] != all_resp[..cum[done]] {
+                        // everything the delivered messages answer must be there; units of the
+                        // message in flight may already have answered (a newline inside a
+                        // payload makes process execute the units before it early)
+                        let upper = cum[(done + 1).min(nmsg)];
+                        if written.len() < cum[done] || written.len() > upper || written[..] != all_resp[..written.len().min(all_resp.len())] {
                             return v(
                                 "read-before-answer",
                                 format!("at transport event {i} read was called with {} message(s) delivered: {} response bytes written, {} expected\n    written [{}] expected [{}]\n    {}", done, written.len(), cum[done], crate::scenario::show(&written), crate::scenario::show(&all_resp[..cum[done]]), brief(&t)),
@@ -177,7 +199,10 @@ impl Prop for C10T {
             }
             let writes = t.events.iter().filter(|e| matches!(e, Ev::TWrite { .. })).count();
             let responding = resp.iter().filter(|x| !x.is_empty()).count();
-            if writes != responding {
+            // one write per responding message; a message with newlines inside payloads is
+            // executed piecewise and may answer once per piece
+            let extra: usize = (0..nmsg).filter(|&i| !resp[i].is_empty()).map(|i| bytes[bounds[i]..bounds[i + 1] - 1].iter().filter(|&&b| b == b'\n').count()).sum();
+            if writes < responding || writes > responding + extra {
                 return v("write-count", format!("{writes} write calls for {responding} responding messages\n    {}", brief(&t)));
             }
         }
@@ -288,6 +313,6 @@ impl Prop for C10T {
         ]
     }
     fn probes(&self) -> Vec<&'static str> {
-        vec!["fired:transport_error_positions", "fired:lockstep_controller", "reach:two_or_more_responding_messages", "reach:fault_between_write_and_flush", "reach:restart_judged"]
+        vec!["fired:transport_error_positions", "fired:lockstep_controller", "reach:newline_inside_payload", "reach:two_or_more_responding_messages", "reach:fault_between_write_and_flush", "reach:restart_judged"]
     }
 }
